@@ -4,10 +4,12 @@ use crate::{
     Report,
 };
 
+pub mod c01;
 pub mod c09;
 
 pub fn run(cfg: &Cfg) -> Option<Report> {
     let r = match cfg.prop.as_str() {
+        "C01" => c01::run(cfg),
         "C09" => c09::run(cfg),
         _ => return None,
     };
